@@ -163,7 +163,7 @@ def grep_audit():
 def axiom_audit(imports, theorems, ctx):
     """`#print axioms` for every theorem; returns {theorem: [axioms]} ; missing theorem -> None."""
     if not theorems:
-        return {}
+        return {}, ''
     src = ''.join('import %s\n' % m for m in imports)
     src += ''.join('#print axioms %s\n' % t for t in theorems)
     path = os.path.join(LEAN, '.lake', 'audit_%s_%d.lean' % (ctx.pid, os.getpid()))
